@@ -67,6 +67,39 @@ def consumes_all(g, ir, depth=0):
     return False
 
 
+def end_padding(g, ir, depth=0):
+    """What a nested parse accepts between the argument proper and the end of the word, besides nothing: for
+    `terminated(ARG, END)` the consuming parts of END other than the end-of-input test itself (`eof` redefined as
+    `preceded(multispace0, eof)` lets `'644 '` through).  -> list of descriptions (empty = the word is the argument)."""
+    ir = unwrap(ir)
+    if depth > 12:
+        return []
+    t = ir["t"]
+    if t in ("map", "value", "trymap", "verify", "fold"):
+        return end_padding(g, ir["p"], depth + 1)
+    if t == "alt":
+        return [x for a in ir["alts"] for x in end_padding(g, a, depth + 1)]
+    if t == "seq" and len(ir["items"]) >= 2 and not ir["items"][-1]["keep"]:
+        last = ir["items"][-1]["p"]
+        seen = 0
+        while seen < 8:
+            seen += 1
+            last = unwrap(last)
+            if last["t"] == "ref":
+                fb = g.deref(last)
+                seqs = g.body_seq(fb) if fb["t"] == "fnbody" else []
+                if len(seqs) == 1:
+                    last = seqs[0]
+                    continue
+            break
+        last = unwrap(last)
+        if last["t"] == "seq":
+            extra = [peg.show(i["p"])[:40] for i in last["items"] if unwrap(i["p"])["t"] not in ("eof", "peek", "notp")]
+            if extra and any(unwrap(i["p"])["t"] == "eof" for i in last["items"]):
+                return extra
+    return []
+
+
 def ends_at_boundary(g, ir, bnd, depth=0):
     """Sound under-approximation of: whenever `ir` succeeds, the next input character is in `bnd` or the input
     is exhausted."""
@@ -357,6 +390,9 @@ def run(c, facts, tier):
             "nested parse of a delimited word by %s %s (winnow's and_then does not require the inner parser to reach the end of the slice)" % (inner_name, "always consumes the whole word or fails" if ok else "may stop early: the unparsed tail of the word is silently dropped"),
             witness=("-perm 777x" if "Perm" in inner_name else None) if not ok else None,
         )
+        pad = end_padding(g, n["inner"])
+        if pad:
+            c.ob("C05.whole-arg", k, "and_then(%s): the word is the argument, nothing more" % inner_name, False, "before the end of the word the nested parse also accepts %s: a word with that tail is taken although it is not in the argument language" % pad, witness="-perm '644 '" if "Perm" in inner_name else None)
     c.analysed["nested_parses"] = len(nested)
 
     # ------------------------------------------------------------ C05.cut
